@@ -1049,6 +1049,24 @@ impl BackupManager {
         let mut deleted = Vec::new();
         let min_age_seconds = policy.min_age_days * day;
 
+        // A retained incremental is only restorable with its whole parent chain: keep the
+        // ancestors of every backup that survives this prune (kept by a bucket or by min age).
+        let mut changed = true;
+        while changed {
+            changed = false;
+            for backup in &backups {
+                let retained = to_keep.contains(&backup.id)
+                    || now.saturating_sub(backup.timestamp) < min_age_seconds;
+                if retained {
+                    if let Some(parent_id) = backup.parent_id {
+                        if to_keep.insert(parent_id) {
+                            changed = true;
+                        }
+                    }
+                }
+            }
+        }
+
         for backup in &backups {
             if !to_keep.contains(&backup.id) {
                 let age = now.saturating_sub(backup.timestamp);
